@@ -207,6 +207,15 @@ func (t *transducer) writeData(st *absint.State, s *tdSite, src *absint.Slice) {
 // dataIndexOf: v is a load of data[idx]; returns idx.
 func (t *transducer) dataIndexOf(st *absint.State, v ssa.Value) (absint.Lin, bool) {
 	v = stripConv(v)
+	// by value first: the term of v is a one-byte read of the input at some index (also when the byte has travelled
+	// through a range variable, a local or a helper's parameter)
+	if iv, isI := t.a.Val(st, v).(absint.Int); isI {
+		if at := iv.L.SingleAtom(); at != nil {
+			if b, off, w, _, ok := absint.ReadAtom(at); ok && w == 1 && b == t.data.Base {
+				return off.Sub(t.data.Off), true
+			}
+		}
+	}
 	var x, idx ssa.Value
 	switch u := v.(type) {
 	case *ssa.UnOp:
@@ -365,9 +374,7 @@ func (c *Ctx) verifyTransducer(fn *ssa.Function, mode tdMode, rule string) {
 			t.output(st, site, "append", src, sv)
 		}
 		a.OnBranch = func(f2 *ssa.Function, iff *ssa.If, taken bool, st *absint.State) {
-			if f2 != fn {
-				return
-			}
+			// branches of inlined helpers count too: a helper may classify the byte it is handed
 			cond := iff.Cond
 			if tdDebug {
 				fmt.Printf("TD branch %s taken=%v cond=%s (%T) em=%s c7d=%s\n", c.P.RelPos(iff.Cond.Pos()), taken, cond, cond, t.g(st, t.em), t.g(st, t.c7d))
@@ -381,6 +388,35 @@ func (c *Ctx) verifyTransducer(fn *ssa.Function, mode tdMode, rule string) {
 			}
 			switch x := cond.(type) {
 			case *ssa.BinOp:
+				// a search of the whole input for a special byte that came back negative: the byte does not occur
+				// (`bytes.IndexByte(data, 0x7d) < 0`, `== -1`, the false side of `>= 0`, … - decided from the branch state)
+				for _, opd := range []ssa.Value{x.X, x.Y} {
+					call, isC := opd.(*ssa.Call)
+					if !isC || call.Call.StaticCallee() == nil || len(call.Call.Args) != 2 {
+						continue
+					}
+					if n := call.Call.StaticCallee().String(); n != "bytes.IndexByte" && n != "bytes.IndexRune" {
+						continue
+					}
+					xs, ok := a.Val(st, call.Call.Args[0]).(*absint.Slice)
+					if !ok || !t.isData(xs) || !st.Entails(eqC(xs.Off, t.data.Off)) || !st.Entails(eqC(xs.Len, t.data.Len)) {
+						continue
+					}
+					k, isK := constInt(call.Call.Args[1])
+					rv, isI := a.Val(st, call).(absint.Int)
+					if !isK || !isI || !st.Entails(leC(rv.L, absint.Const(-1))) {
+						continue
+					}
+					switch k {
+					case 0x7d:
+						absint.SetGhost(st, t.c7d, t.lenL())
+					case 0x7e:
+						if t.c7e != nil {
+							absint.SetGhost(st, t.c7e, t.lenL())
+						}
+					}
+					return
+				}
 				if x.Op != token.EQL && x.Op != token.NEQ {
 					return
 				}
